@@ -35,7 +35,7 @@ def quiet(fn, *a, **k):
 
 @st.composite
 def base_cases(draw, ncomp=1, min_n=3, max_n=30):
-    cloud = draw(gen.clouds(min_n=min_n, max_n=max_n, max_exp=4, min_exp=-5, ratios=[0.0, 0.0, 1.0, -1.0, 10.0, -10.0]))
+    cloud = draw(gen.clouds(min_n=min_n, max_n=max_n, max_exp=4, min_exp=-5, ratios=[0.0, 0.0, 1.0, -1.0, 10.0, -10.0], structures=gen.STRUCTURES))
     n = len(cloud["cells"])
     kind = draw(st.sampled_from(["unit", "int", "big", "small", "mixed"]))
     data = [draw(gen.data_values(n, kind)) for _ in range(ncomp)]
@@ -60,9 +60,22 @@ def arrays(case):
     es, ns = gen.cloud_xy(case["cloud"])
     shape = case["shape"]
     lay = vbuild.Lay(case.get("orders"))
+    datas, ws = case["data"], case["weights"]
+    if case.get("reoccupied"):
+        es, ns, datas, ws = list(es), list(ns), [list(d) for d in datas], None if ws is None else [list(w) for w in ws]
+        dmax = max(abs(v) for v in datas[0]) or 1.0
+        for i in range(min(case["reoccupied"], len(case["cloud"]["cells"]))):
+            for j in range(1 + i % 3):
+                es.append(es[i])
+                ns.append(ns[i])
+                for d in datas:
+                    d.append(float(round(d[i])) + j + 1 if case.get("int_dtype") else d[i] + 0.37 * (j + 1) * dmax)
+                for w in ws or []:
+                    w.append(w[i] * (j + 2) / 2.0)
+        shape = [len(es)]
     e, n = lay(es, shape), lay(ns, shape)
-    data = [lay(d, shape, "int64" if case.get("int_dtype") else "float64") for d in case["data"]]
-    weights = None if case["weights"] is None else [lay(w, shape) for w in case["weights"]]
+    data = [lay(d, shape, "int64" if case.get("int_dtype") else "float64") for d in datas]
+    weights = None if ws is None else [lay(w, shape) for w in ws]
     qe, qn = gen.cloud_query(case["cloud"], case["query"])
     return e, n, data, weights, np.array(qe), np.array(qn)
 
@@ -134,6 +147,8 @@ def trend_cases(draw):
     case["degree"] = draw(st.integers(0, 4))
     case["damping"] = None
     case["single"] = draw(st.integers(0, 2)) == 0  # data stored in single precision (verde then works in single precision: judged with that accuracy)
+    # stations occupied more than once (exactly repeated coordinates, different readings, unequal multiplicities): every reading is a datum of its own
+    case["reoccupied"] = draw(st.sampled_from([0, 0, 0, 1, 3, 6]))
     return case
 
 
@@ -172,7 +187,7 @@ def check_trend(case, ctx):
     jac = kernels.trend_jacobian(e, n, deg)
     jq = kernels.trend_jacobian(qe, qn, deg)
     nt = judge(ctx, "Trend(%d)" % deg, jac, jq, data, weights, None, tr.coef_, [tr.predict((qe, qn))])
-    ctx.label("deg%d" % deg)
+    ctx.label("deg%d" % deg, "reoccupied_stations" if case.get("reoccupied") else "distinct_stations", "structure_%s" % (case["cloud"].get("structure") or "none"))
     ctx.nt(nt)
 
 
